@@ -1,42 +1,18 @@
-"""C09 — see harness/props/sdl_ko.py (check_c09) for the oracle on the real StatefulDataLoader under the virtual
-scheduler; the Lean theorems and the trace-validation leg are listed in THEOREMS / run()."""
+"""C09 - oracle: harness/props/sdl_ko.py (check_c09) on the real StatefulDataLoader under the virtual scheduler;
+theorems and correspondence legs come from the SP / MP model parts."""
 from __future__ import annotations
 
-from typing import Tuple
+from . import _compose, sdl_ko
 
-from ..core import Ctx
-from . import sdl_ko
-
-THEOREMS: list = []
-LEAN_MODULES: list = []
-RULE = ""
-EXPLANATION = ""
+RULE = "multi-worker configurations x victim worker x kill point (the victim's n-th switch point: start-up, idle wait, after get, mid-fetch, before/after put) x optional checkpoint before the death; outcome classes: prefix+error, complete epoch, never hang / early stop / wrong data. Non-trivial: the kill actually happened before the epoch ended; distinct by (configuration, victim, kill point)."
+EXPLANATION = 'Lean: TDV.MP.kill_safe / kill_detected on the protocol model with kill actions. Tie: MP K-T leg. Oracle: virtual SIGKILL at enumerated switch points of the real _worker_loop. Partial: SIGCHLD delivery and queue corruption by a kill mid-write are OS behaviour the model cannot exhibit.'
 ASSUMPTIONS = ["worker processes are virtual processes under harness/vsched.py (real _worker_loop, deep-copied arguments, pickled queue payloads)"]
-KNOWN: dict = {}
-NQ, NT = 150, 3000
 
+PARTS = [_compose.ko_part("ko", sdl_ko.gen_c09, sdl_ko.check_c09, 200, 4000, known=None)]
 
-def extra_legs(ctx: Ctx):
+try:
+    from . import mp_parts
+    PARTS += mp_parts.parts("C09")
+except ImportError:
     pass
-
-
-def run(ctx: Ctx):
-    import torch
-    torch.set_num_threads(1)
-    jobs = sdl_ko.gen_c09(ctx, ctx.n(NQ, NT))
-    for j in jobs[:2]:
-        ctx.sample(j)
-    ctx.pmap(sdl_ko.check_c09, jobs)
-    extra_legs(ctx)
-
-
-def escalate(ctx: Ctx):
-    run(ctx)
-
-
-def replay(ctx: Ctx, payload) -> Tuple[bool, str]:
-    sub = Ctx(ctx.prop, ctx.tier, ctx.seed)
-    sdl_ko.check_c09(sub, payload["input"])
-    if sub.failures:
-        return False, sub.failures[0].what
-    return True, "property holds on this input"
+_compose.assemble(globals(), PARTS, RULE, EXPLANATION, ASSUMPTIONS)
